@@ -11,6 +11,7 @@ use bitcoin::{Transaction, Txid};
 use lightning::events::Event;
 use lightning::ln::channelmanager::RecentPaymentDetails;
 use lightning::sign::ChannelSigner;
+use lightning::util::ser::ReadableArgs;
 use lightning::types::payment::{PaymentHash, PaymentPreimage};
 use std::collections::{BTreeMap, BTreeSet};
 
@@ -30,6 +31,8 @@ pub struct OracleState {
 	pub rev: BTreeMap<(usize, [u8; 32]), RevAuto>,
 	/// (node, chan key) -> last update id seen at the Watch seam in this incarnation
 	pub watch_last: BTreeMap<(usize, [u8; 32], u32), u64>,
+	/// (node, chan) -> ((durable update id, blob len), numbers)
+	pub durable_cache: BTreeMap<(usize, usize), ((u64, usize), (u64, u64, u64))>,
 }
 
 impl World {
@@ -101,6 +104,23 @@ impl World {
 			},
 			WireMsg::Commit(cs) => self.oracle_on_cs_emitted(from, li, side, cs),
 			WireMsg::Shutdown(_) => self.ledgers[li].sides[side].shutdown_sent = true,
+			WireMsg::FundingSigned(_) | WireMsg::ChannelReady(_) => {
+				self.out.bump("oracle:C09-2 funding_signed/channel_ready only once the monitor is durable");
+				let key_known = self.chans[li].channel_id.0 != [0u8; 32] || matches!(m, WireMsg::FundingSigned(_));
+				let has = {
+					let d = self.nodes[from].disk.lock().unwrap();
+					d.chans.values().filter(|c| c.durable.is_some()).count()
+				};
+				// during setup the channel id is learned late; count durable monitors instead
+				let needed = self.ledgers.iter().take(li + 1).filter(|l| l.a == from || l.b == from).count();
+				if key_known && has < needed {
+					self.violate(
+						"C09",
+						"C09-2 funding_signed/channel_ready released before the initial monitor was durable",
+						format!("node {} channel {}: {} durable monitors, {} channels opened so far", from, li, has, needed),
+					);
+				}
+			},
 			_ => {},
 		}
 	}
@@ -164,6 +184,7 @@ impl World {
 				return;
 			},
 		};
+		self.oracle_durable_before_cs(from, li, commit.number);
 		self.out.bump("oracle:C01-1 commitment vs wire ledger");
 		if self.ledgers[li].disabled || !self.ledgers[li].have_params {
 			return;
@@ -214,6 +235,93 @@ impl World {
 		}
 	}
 
+	/// Numbers (holder, counterparty, min seen secret) of the monitor the node would load for
+	/// channel `li` if it crashed right now and no in-flight write had reached the disk.
+	pub fn durable_numbers(&mut self, n: usize, li: usize) -> Option<(u64, u64, u64)> {
+		let key = self.chans[li].channel_id.0;
+		let (id, bytes) = {
+			let d = self.nodes[n].disk.lock().unwrap();
+			match d.chans.get(&key).and_then(|c| c.durable.clone()) {
+				Some(x) => x,
+				None => return None,
+			}
+		};
+		if let Some((cid, nums)) = self.oracle.durable_cache.get(&(n, li)) {
+			if *cid == (id, bytes.len()) {
+				return Some(*nums);
+			}
+		}
+		let keys = self.nodes[n].keys.clone();
+		let r = simcore::runner::catch(|| {
+			<(lightning::chain::BlockLocator, lightning::chain::channelmonitor::ChannelMonitor<crate::infra::SimSigner>)>::read(
+				&mut &bytes[..],
+				(&*keys, &*keys),
+			)
+		});
+		match r {
+			Ok(Ok((_, m))) => {
+				let nums = m.verif_numbers();
+				self.oracle.durable_cache.insert((n, li), ((id, bytes.len()), nums));
+				Some(nums)
+			},
+			_ => {
+				self.violate(
+					"C12",
+					"C12-a durable monitor blob does not read back",
+					format!("node {} channel {} update id {}", n, li, id),
+				);
+				None
+			},
+		}
+	}
+
+	/// C09-2: whatever a message reveals must already be in the *durable* monitor.
+	fn oracle_durable_before_cs(&mut self, from: usize, li: usize, number: u64) {
+		self.out.bump("oracle:C09-2 commitment_signed only after its monitor update is durable");
+		match self.durable_numbers(from, li) {
+			Some((_, cur_cp, _)) => {
+				if cur_cp > number {
+					self.violate(
+						"C09",
+						"C09-2 commitment_signed released before its monitor update was durable",
+						format!(
+							"node {} channel {}: commitment_signed for counterparty commitment {} left the node while the durable monitor only knows counterparty commitment {}",
+							from, li, number, cur_cp
+						),
+					);
+				}
+			},
+			None => self.violate(
+				"C09",
+				"C09-2 commitment_signed released before the monitor exists on disk",
+				format!("node {} channel {}", from, li),
+			),
+		}
+	}
+
+	fn oracle_durable_before_raa(&mut self, from: usize, li: usize, released_idx: u64) {
+		self.out.bump("oracle:C09-2 revoke_and_ack only after its monitor update is durable");
+		match self.durable_numbers(from, li) {
+			Some((cur_holder, _, _)) => {
+				if cur_holder > released_idx - 1 {
+					self.violate(
+						"C09",
+						"C09-2 revoke_and_ack released before the new holder commitment was durable",
+						format!(
+							"node {} channel {}: the secret of holder commitment {} left the node while the durable monitor's current holder commitment is still {}",
+							from, li, released_idx, cur_holder
+						),
+					);
+				}
+			},
+			None => self.violate(
+				"C09",
+				"C09-2 revoke_and_ack released before the monitor exists on disk",
+				format!("node {} channel {}", from, li),
+			),
+		}
+	}
+
 	fn oracle_on_raa_emitted(&mut self, from: usize, li: usize, r: &lightning::ln::msgs::RevokeAndACK) {
 		self.scan_signer_log(from);
 		self.out.bump("oracle:C05-4 revoke_and_ack contents");
@@ -247,6 +355,15 @@ impl World {
 		let signer = self.nodes[from].keys.km.derive_channel_keys(&keys_id);
 		let secp = Secp256k1::new();
 		// the released secret may be for `idx` (new) or, on retransmission, the same again
+		// find which released index this secret belongs to (the newest, or a retransmission)
+		let mut idx = idx;
+		for cand in [idx, idx + 1] {
+			if signer.release_commitment_secret(cand).ok() == Some(r.per_commitment_secret) {
+				idx = cand;
+				break;
+			}
+		}
+		self.oracle_durable_before_raa(from, li, idx);
 		let ok_secret = signer.release_commitment_secret(idx).ok() == Some(r.per_commitment_secret);
 		if !ok_secret {
 			self.violate(
@@ -270,7 +387,53 @@ impl World {
 		let _ = SecretKey::from_slice(&r.per_commitment_secret).map(|s| PublicKey::from_secret_key(&secp, &s));
 	}
 
+	/// C09-2 / C02: an update_fulfill_htlc leaves a node only after the preimage is durable in
+	/// the monitor of the channel it is claimed on.
+	fn oracle_preimage_durable(&mut self, from: usize, li: usize, pre: &PaymentPreimage) {
+		self.out.bump("oracle:C09-2 update_fulfill_htlc only after the preimage is durable");
+		let key = self.chans[li].channel_id.0;
+		let hexpre = format!("{}", pre);
+		let (durable_id, preimage_update) = {
+			let d = self.nodes[from].disk.lock().unwrap();
+			let did = d.chans.get(&key).and_then(|c| c.durable.as_ref().map(|x| x.0));
+			let upd = d
+				.log
+				.iter()
+				.filter(|c| c.chan == key)
+				.find(|c| c.steps.iter().any(|(n, det)| *n == "PaymentPreimage" && *det == hexpre))
+				.map(|c| c.update_id);
+			(did, upd)
+		};
+		match (durable_id, preimage_update) {
+			(Some(d), Some(u)) => {
+				if u > d {
+					self.violate(
+						"C09",
+						"C09-2 update_fulfill_htlc released before the preimage was durable",
+						format!(
+							"node {} channel {}: preimage update {} still in flight (durable monitor is at update {})",
+							from, li, u, d
+						),
+					);
+				}
+			},
+			(_, None) => {
+				// the preimage may have been made durable in an earlier incarnation whose persist log
+				// the simulator no longer holds only if the node restarted; otherwise it is missing
+				if self.nodes[from].incarnation == 0 {
+					self.violate(
+						"C09",
+						"C09-2 update_fulfill_htlc released without a preimage monitor update",
+						format!("node {} channel {}: no PaymentPreimage update was ever handed to Persist", from, li),
+					);
+				}
+			},
+			(None, Some(_)) => {},
+		}
+	}
+
 	fn oracle_on_fulfill_emitted(&mut self, from: usize, _li: usize, _id: u64, pre: &PaymentPreimage) {
+		self.oracle_preimage_durable(from, _li, pre);
 		// C03-1 / C04: a preimage only ever leaves a node after the recipient's application
 		// called claim_funds for that payment.
 		let h = PaymentHash(Sha256::hash(&pre.0).to_byte_array());
